@@ -25,10 +25,14 @@ TEMPLATES = [("SELECT '$' FROM t", "lit1"), ("SELECT a FROM t WHERE b = '$' AND 
              ("SELECT a /** $ **/, b FROM t /* tail */", "c2"), ("SELECT a /*$**/, b FROM t /* tail */", "c2"), ("SELECT a /***$***/ FROM t /* x */", "c2"),
              ("SELECT a `$` FROM t", "name"), ("SELECT a FROM t `$`", "name"), ("SELECT a FROM t `$` JOIN u ON 1 = 1", "name"), ("SELECT a FROM (SELECT a FROM t) `$` WHERE a = 1", "name"),
              ("SELECT CASE a WHEN '$' THEN '$' ELSE '$' END FROM t", "lit1"), ("SELECT CASE WHEN a = 1 THEN '$' ELSE '$' END, f(a, '$') FROM t GROUP BY '$' ORDER BY '$'", "lit1"),
+             ("SELECT a /* $ */ FROM t WHERE a == 1 AND b = 'q'", "c2"), ("SELECT a -- $\n FROM t WHERE a == 1", "c1"), ("SELECT a # $\nFROM t WHERE b == 'x' OR a == 2", "c1"),
+             ("SELECT /* $ */ CURRENT DATE FROM t", "c2"), ("SELECT a -- $\n, CURRENT TIMESTAMP FROM t WHERE b > CURRENT TIME", "c1"),
+             ("SELECT '$', CURRENT DATE FROM t WHERE a == 1", "lit1"), ("SELECT `$` FROM t WHERE a == 1 AND d < CURRENT DATE", "name"),
              ("SELECT \"$\" AS x, b FROM t WHERE c = \"$\" AND d = 'tail'", "lit2"), ("SELECT a FROM t WHERE b = '$' AND c = \"q\" AND d = 'tail'", "lit1")]
 ATOMS = ["SELECT", "FROM", " ", ";", "(", ")", "[", "]", ",", "--", "/*", "#", "+", "<=>", "||", "&&", "!", "=", "a", "B", "0", "1.5", "0x1F", "NULL", "名", "é", "#{p}", "}",
          "{", ".", "%", "^", "~", "|", "&", "<", ">", "@", "$", "?", ":", "x'", "UNION", "WHERE 1=1", "*",
-         "，", "；", "（", "）", "：", "！", "？", "＝", "\n", "CROSS", "sort", "USING", "Cluster", "DISTRIBUTE", "JOIN", "AS", "ON", "LIMIT", "ORDER", "GROUP", "BY", "WITH", "END", "\n    "]
+         "，", "；", "（", "）", "：", "！", "？", "＝", "\n", "CROSS", "sort", "USING", "Cluster", "DISTRIBUTE", "JOIN", "AS", "ON", "LIMIT", "ORDER", "GROUP", "BY", "WITH", "END", "\n    ",
+         "'", '"', "`", "it's", "${x}", "${", "$$", "q\"r", "<![CDATA[", "]]>"]
 FORBIDDEN = {"lit1": ["'", "\\"], "lit2": ['"', "\\"], "name": ["`", ".", "\n"], "c1": ["\n"], "c2": ["*/", "*"]}
 
 
@@ -110,6 +114,19 @@ def run(run):
     mo = core.run_model(lex + par + prt)
     n = len(lex)
     dis += stmt.tie(run, "LEX/PARSE/PRINT", lex + par + prt, mo, im, [""] * (3 * n))
+    # the shipped plug-in parser on the same texts: the quoted region is as opaque to it (model tie), and where the text holds no '#' at all
+    # it must answer exactly like the base parser
+    mbi = [i for i in range(n) if i % (3 if tier_q else 2) == 0]
+    mbreq = [par[i].replace("PARSE 0 ", "PARSE 1 ", 1) for i in mbi]
+    mbim, mbmo = core.run_impl(mbreq), core.run_model(mbreq)
+    dis += stmt.tie(run, "PARSE (MyBatis plug-in parser)", mbreq, mbmo, mbim, [""] * len(mbreq))
+    for i, a in zip(mbi, mbim):
+        d, tpl, kind, p1, p2 = cases[i // 2]
+        t = tpl.replace("$", (p1, p2)[i % 2])
+        if "#" not in t and a != im[n + i]:
+            fails.append({"kind": "input", "stream": "plug-in parser vs base parser", "text": t, "other_text": t, "dialect": d, "template": tpl, "payload_kind": kind,
+                          "payloads": [p1, p2], "request": mbreq[mbi.index(i)], "oracle_verdict": "SQLParserMyBatis answers %s, SQLParser %s on a text without '#'" % (a[:100], im[n + i][:100])})
+    run.add_stream("plug-in parser on the payload texts", len(mbreq), len(set(mbreq)), [])
     judged = 0
     for i, (d, tpl, kind, p1, p2) in enumerate(cases):
         t1, t2 = tpl.replace("$", p1), tpl.replace("$", p2)
